@@ -14,6 +14,13 @@ COMMON = [
 ]
 
 K_PROPS = {
+    "C09": dict(assumptions=COMMON + KERNEL_ASSUMPTIONS + [
+                    "raw kernel mode: the value returned by each `syscall` instruction is an unconstrained 64-bit variable; memory the "
+                    "kernel would fill through pointer arguments is left as the wrapper initialised it",
+                    "for descriptor/pid-returning calls success values above i32::MAX are not judged (the kernel never returns them)",
+                    "execve: only error returns are considered (it returns only on failure)",
+                    "the single-call rule (a re-issue is legitimate only for dup3 after -EBUSY) is asserted inside the kernel at the moment of the second call; paths with more than 3 calls are cut"],
+                outside=["wrappers not in the table (see coverage.uncovered_wrappers)", "aarch64 variants", "io_uring register variants beyond files"]),
     "C19": dict(assumptions=COMMON + KERNEL_ASSUMPTIONS + [
                     "clock_gettime model: arbitrary normalised instants, non-decreasing (the kernel's guarantee is assumed, not checked)",
                     "nanosleep model: completes, or -EINTR after sleeping any part with the exact remainder written; <= 3 interruptions",
@@ -32,12 +39,46 @@ K_PROPS = {
 }
 
 
+def c09_uncovered():
+    """rusl wrappers (pub fns whose body contains `syscall!`) that no C09 obligation names."""
+    import re
+    from .common import REPO
+    wrappers = set()
+    for root, _, fs in os.walk(os.path.join(REPO, "rusl", "src")):
+        for f in fs:
+            if not f.endswith(".rs"):
+                continue
+            s = open(os.path.join(root, f)).read()
+            for m in re.finditer(r"pub (?:unsafe )?fn (\w+)\s*(?:<[^>]*>)?\s*\(", s):
+                i = s.find("{", m.end())
+                if i < 0:
+                    continue
+                depth, j = 1, i + 1
+                while depth and j < len(s):
+                    depth += {"{": 1, "}": -1}.get(s[j], 0)
+                    j += 1
+                body = s[i:j]
+                sig = s[m.start():i]
+                if "syscall!" in body and "#[cfg(test)]" not in s[max(0, m.start() - 200):m.start()] and ";" not in sig:
+                    wrappers.add(m.group(1))
+    named = set()
+    for ob in kani.discover("C09"):
+        for fn in ob.fns:
+            named.add(fn.split("::")[-1])
+    return sorted(wrappers - named), len(wrappers)
+
+
 def dispatch(prop, tier, seed, only, replay_path, jobs):
     if replay_path:
         p = replay_path if os.path.isabs(replay_path) else os.path.join(VERIF, replay_path)
         return kani.replay_from_file(p)
     if prop in K_PROPS:
-        cfg = K_PROPS[prop]
+        cfg = dict(K_PROPS[prop])
+        if prop == "C09":
+            unc, total = c09_uncovered()
+            cfg["outside"] = cfg.get("outside", []) + ["rusl wrappers found in the current source without a harness (%d of %d): %s"
+                                                       % (len(unc), total, ", ".join(unc) or "none")]
+            log("[C09] %d wrappers containing syscall! in /repo/rusl/src; without harness: %s" % (total, ", ".join(unc) or "none"))
         return kani.check_property(prop, tier, seed, only=only, jobs=jobs, assumptions=cfg.get("assumptions"),
                                    outside=cfg.get("outside"))
     log("unknown or unclaimed property %s" % prop)
